@@ -148,13 +148,22 @@ def r7_xver(ck):
     va = (varint.encode_table(F)[0], varint.decode_table(F)[0], varint.length_scanner(F))
     vb = (varint.encode_table(G)[0], varint.decode_table(G)[0], varint.length_scanner(G))
     ck.ob(R, "equal-0.4.7/varint", va == vb, "varint encode/decode/scanner tables equal grenad 0.4.7's", config="default+v047")
-    # codec helpers both versions support: same external callee sets (same crate API used the same way)
-    for stem in ("snappy_pre_05", "snappy"):
+    xver_codec_helpers(ck, F, G, R)
+
+
+def xver_codec_helpers(ck, F, G, R):
+    """codec helpers both versions support use the codec crate's API the same way (same external
+    callee sets) as the frozen 0.4.7 sibling — shared with C01-R3"""
+    for stem in ("snappy_pre_05", "snappy", "zlib", "lz4", "zstd"):
         for side in ("compress", "decompress"):
             p = f"compression::{stem}_{side}"
             if F.has_body(p) and G.has_body(p):
                 ca = sorted({callee_name(c) for s, c, t in F.body(p).calls() if c and not c["local"]})
                 cb = sorted({callee_name(c) for s, c, t in G.body(p).calls() if c and not c["local"]})
+                if not ca and not cb:
+                    continue
+                if not cb or not any(x.startswith(("snap::", "flate2::", "lz4_flex::", "zstd::")) for x in cb):
+                    continue  # feature compiled out in the sibling build: nothing to compare with
                 ck.ob(R, f"codec-helper-equal-0.4.7/{stem}_{side}", ca == cb, f"{p} uses the same external calls as in grenad 0.4.7" + ("" if ca == cb else f" — tree only: {sorted(set(ca) - set(cb))}; 0.4.7 only: {sorted(set(cb) - set(ca))}"), F.body(p), config="default+v047")
 
 
